@@ -20,6 +20,7 @@ import E2P.Spec.BranchSpec
 import E2P.Model.Agg
 import E2P.Spec.AggSpec
 import E2P.Model.Exec
+import E2P.Model.ExecRej
 import E2P.Spec.ExecSpec
 import E2P.Model.Facade
 import E2P.Spec.FacadeSpec
@@ -402,6 +403,10 @@ def parseOp : List String → Option (Op × List String)
   | "sheet" :: r => do let (s, r) ← takeNat r; some (.sheet s, r)
   | _ => none
 
+def parseOpA : List String → Option (OpA × List String)
+  | "rej" :: r => some (.rejected, r)
+  | r => do let (o, r) ← parseOp r; some (.op o, r)
+
 def firstErr (rs : List Res) : Option PyExc := rs.findSome? fun r => match r with | .error e => some e | .ok _ => none
 
 def encOut : Out → String
@@ -414,6 +419,12 @@ def encOut : Out → String
     | some e => "E" ++ e.name
     | none => s!"G{g.length}x{(g.headD []).length} " ++ " ".intercalate (g.flatten.map encRes)
 
+def weave : List OpA → List String → List String
+  | [], _ => []
+  | .rejected :: ops, outs => "ECell" :: weave ops outs
+  | .op _ :: ops, o :: outs => o :: weave ops outs
+  | .op _ :: ops, [] => "?" :: weave ops []
+
 def handleExec (args : List String) : String :=
   match (do
     let (fuel, r) ← takeNat args
@@ -425,15 +436,17 @@ def handleExec (args : List String) : String :=
       let (e, r) ← parseX (r.length + 1) r
       some ((code, e), r)) nc r
     let (no, r) ← takeNat r
-    let (ops, r) ← parseMany parseOp no r
+    let (ops, r) ← parseMany parseOpA no r
     if r.isEmpty then some (fuel, sizes, cells, ops) else none) with
   | none => "bad-op"
-  | some (fuel, sizes, cells, ops) =>
+  | some (fuel, sizes, cells, opsA) =>
     let wb : Workbook := cells
-    let model := (run wb fuel (ExecState.init sizes) ops).2
-    let spec := specRun (fun k => lookup k wb) fuel sizes [] ops
+    let ops := accepted opsA
+    let model := (runA wb fuel (ExecState.init sizes) opsA).2.map fun o => match o with | .out o => encOut o | .cellError => "ECell"
+    -- the specification speaks about the accepted calls; a rejected call answers with the cell exception
+    let spec := weave opsA ((specRun (fun k => lookup k wb) fuel sizes [] ops).map encOut)
     let valid := (allWriteUids ops).all fun u => u.sheet < sizes.length
-    let j := fun (os : List Out) => " ; ".intercalate (os.map encOut)
+    let j := fun (os : List String) => " ; ".intercalate os
     s!"{j model} | {if valid then j spec else "-"} | "
 
 /-! facade sequences: `fc <ntab> {p e s result} <nops> {P<k> | E<k> | S+ | S- | G | W}`; entry index 0 = none in the table -/
